@@ -14,11 +14,14 @@
 // ("5 task" request published = a successful compare_exchange stored an awaiter, "6 task" critical
 // section entered, "4 task" left); then the ctl deadlock line, one line per contender
 // "task 7 rounds entries failed_try done" and "8 overlap requests_null queue_null".
+// "778 tids": more than 3000 atomic operations in one case (the implementation spins): all threads are parked, the case ends.
+// Deadlocked / livelocked cases leave their threads parked and leaked; the process goes on with the next case.
 #define VH_DEFINE_NEW
 #include "ctl.h"
 #include <cocls/verif_hooks.h>
 
 namespace mxh {
+extern bool g_abandoned;
 void atomic_yield(int code);
 void published();
 bool is_request(const void *p);
@@ -138,9 +141,20 @@ struct Ctx {
 
 static Ctx *g_cx = nullptr;
 namespace mxh {
+static std::atomic<long> g_yields{0};
+static std::atomic<bool> g_livelock{false};
+bool g_abandoned = false;   // some case left threads behind (deadlock / livelock): skip static destruction at exit
 void atomic_yield(int code) {
     ctl::Controller *c = ctl::Controller::active();
     if (!c || ctl::Controller::tid() < 0) return;
+    // a scenario of at most 4 contenders x 3 rounds needs a few hundred atomic operations; far beyond that the
+    // implementation is spinning (livelock): every thread is then parked for good at its next atomic operation,
+    // so the controller sees no enabled thread and the case ends with the observation "778"
+    if (g_yields.fetch_add(1) > 3000) g_livelock = true;
+    if (g_livelock) {
+        c->yield(ctl::Blocked, code, [](void *) { return false; }, nullptr);
+        return;
+    }
     c->yield(ctl::AtPoint, code, nullptr, nullptr);
 }
 void published() {
@@ -239,12 +253,16 @@ static void run_case(const vh::Case &cs) {
     cx.marks.reserve(4096);
     cx.events.reserve(8192);
     g_cx = cxp;
+    mxh::g_yields = 0;
+    mxh::g_livelock = false;
     std::vector<std::function<void()>> fns;
     for (int i = 0; i < n; i++) {
         if (cx.decl[i].kind == 0) fns.push_back([&cx, i] { coro_body(cx, i).detach(); });
         else fns.push_back([&cx, i] { plain_body(cx, i); });
     }
-    ctl::Controller c;
+    // on the heap: after a deadlock / livelock the parked threads keep waiting on it, it is never destroyed
+    auto *cp = new ctl::Controller();
+    ctl::Controller &c = *cp;
     cx.c = &c;
     c.trace.reserve(8192);
     c.run(std::move(fns), sched);
@@ -265,14 +283,19 @@ static void run_case(const vh::Case &cs) {
         ei++;
     }
     if (c.deadlock) {
-        std::vector<long> v{777};
+        std::vector<long> v{mxh::g_livelock ? 778L : 777L};
         for (int s : c.stuck) v.push_back(s);
         vh::print_obs(v);
     }
     for (int i = 0; i < n; i++) vh::print_obs({(long)i, 7, cx.nround[i], cx.nent[i], cx.nfail[i], cx.done[i]});
     vh::print_obs({8, (long)cx.overlap, (long)(cx.mx._requests.load() == nullptr), (long)(cx.mx._queue == nullptr)});
     g_cx = nullptr;
-    ctl::finish_case_or_restart(c);
+    if (c.deadlock) {
+        // the stuck threads cannot be joined: leave them parked, leak the controller and the scenario, go on
+        mxh::g_abandoned = true;
+        return;
+    }
+    delete cp;
     bool clean = cx.mx._requests.load() == nullptr && cx.mx._queue == nullptr;
     if (clean) delete cxp;  // otherwise ~mutex would assert; the state was already printed
 }
@@ -285,6 +308,10 @@ int main(int argc, char **argv) {
         if (cs.engine == "mx") run_case(cs);
         std::printf("END\n");
         std::fflush(stdout);
+    }
+    if (mxh::g_abandoned) {
+        std::fflush(stdout);
+        std::_Exit(0);   // parked threads and their scenarios are still alive
     }
     return 0;
 }
